@@ -257,4 +257,78 @@ def run {P T : Type} (order : List KeyExpr) (view : P → Option (RrelObj T)) (p
       | none => d
     (s.refs.map (callOf order view d')) :: run order view parse d' rest
 
+/-! ## around the provider call: one reference in `resolve_one_step`
+
+```
+for obj, attr, crossref in current_crossrefs:
+    …                                                  # nothing looks at the name before this point
+    resolved = <selected provider>(obj, attr, crossref)            # `callOf`
+    …                                                  # (textx-tools position list: no influence)
+    if resolved is None and metamodel.builtins and crossref.obj_name in metamodel.builtins:
+        if textx_isinstance(metamodel.builtins[crossref.obj_name], crossref.cls):
+            resolved = metamodel.builtins[crossref.obj_name]       # fall-back
+    if resolved is None: raise TextXSemanticError("Unknown object …")
+    if type(resolved) is Postponed: delayed (the reference is handed in again in the next pass)
+    else: setattr / list insert
+```
+The meta-model's configuration (`builtins=`; `textx_tools_support`, user classes, … have no
+statement in between) surrounds the call, it must not replace it.  `O` = model objects. -/
+
+/-- what a provider returns -/
+inductive Answer (O : Type) where
+  | found (o : O)
+  | nothing      -- `None`
+  | postponed    -- `Postponed()`
+deriving DecidableEq, Repr
+
+/-- the part of the meta-model the linking phase reads besides `scope_providers` -/
+structure Env (O : Type) where
+  /-- `metamodel.builtins` (a dict: first entry with the key) -/
+  builtins : List (String × O)
+  /-- `textx_isinstance(·, crossref.cls)` -/
+  conforms : O → Bool
+
+/-- the fall-back block: the builtin of that name, if it is of the class the reference asks for -/
+def Env.builtin? {O : Type} (env : Env O) (name : String) : Option O :=
+  match env.builtins.lookup name with
+  | some b => if env.conforms b then some b else none
+  | none => none
+
+/-- what becomes of a reference in one pass -/
+inductive Result (O : Type) where
+  | bound (o : O)
+  | unknown      -- "Unknown object" error
+  | delayed      -- asked again in the next pass
+deriving DecidableEq, Repr
+
+/-- one reference in one pass of `resolve_one_step`: the provider calls made (in order) and the
+result.  `ask` = what the called provider returns. -/
+def resolveRef {P T O : Type} (order : List KeyExpr) (view : P → Option (RrelObj T)) (d : Dict P T)
+    (env : Env O) (ask : Call P T → Answer O) (r : Ref T) : List (Call P T) × Result O :=
+  let c := callOf order view d r
+  let resolved := ask c
+  let resolved : Answer O :=
+    match resolved with
+    | .nothing =>
+      match env.builtin? r.name with
+      | some b => .found b
+      | none => .nothing
+    | a => a
+  match resolved with
+  | .found o => ([c], .bound o)
+  | .nothing => ([c], .unknown)
+  | .postponed => ([c], .delayed)
+
+/-- the passes the outer loop of `parse_tree_to_objgraph` grants a reference: `asks` = what the
+providers answer in pass 1, 2, …; a delayed reference is handed to `resolve_one_step` again -/
+def resolvePasses {P T O : Type} (order : List KeyExpr) (view : P → Option (RrelObj T)) (d : Dict P T)
+    (env : Env O) (r : Ref T) : List (Call P T → Answer O) → List (Call P T) × Result O
+  | [] => ([], .delayed)
+  | ask :: rest =>
+    match resolveRef order view d env ask r with
+    | (cs, .delayed) =>
+      let (cs', res) := resolvePasses order view d env r rest
+      (cs ++ cs', res)
+    | done => done
+
 end Select
